@@ -1137,7 +1137,12 @@ def suite_kinds(ctx: Ctx, drv, n_models: int, forced=None):
         except Exception as e:  # noqa: BLE001
             ctx.dist[f"kind-model-not-buildable-{kind}-{type(e).__name__}"] += 1
             continue
-        shape = introspect(cls).input
+        try:
+            shape = introspect(cls).input
+        except Exception as e:  # noqa: BLE001
+            ctx.fail("kind:introspection-raises", f"{kind} model {fdescs}: introspection raises {type(e).__name__}: {e}",
+                     {"suite": "kind-shapes", "kind": kind, "fdescs": fdescs, "skip": []})
+            continue
         sj = input_shape_json(shape)
         optional_ids = [f.id for f in shape.fields if not f.is_required]
         # field id -> input key (default name mapping: key == field id)
